@@ -18,7 +18,7 @@ from ..common import is_awaited, in_loop, ancestors, resolve_single_assign
 from ..selftest import Seed
 
 META = {
-    "technique": "writer/reader table agreement on the frame layout, exact-read and no-cancellation rule, singleton-pickle rule, dispatch exhaustiveness, await-ordering, effect analysis of the remote handles, who-may-create and unconditional hand-over of the command coroutine to the interpreter loop",
+    "technique": "writer/reader table agreement on the frame layout, exact-read and no-cancellation rule, singleton-pickle rule, dispatch exhaustiveness, await-ordering, effect analysis of the remote handles, who-may-create and unconditional hand-over of the command coroutine to the interpreter loop, must-pass-through of the function-to-reference translation for every command kind (path-condition inclusion)",
     "level_text": "Static proof of structural necessary conditions of transparent transport: frame layout agreement computed from the struct constants, exact reads that tolerate any fragmentation, no cancellation point inside a frame, identity-preserving pickling of the undefined marker, exhaustive server dispatch, sequential processing. Holds for every fragmentation and message sequence, which mocked streams cannot express; value equality is not decided.",
     "level_note": "decides the structural clause below from source; does not decide the behaviour. Trusted: asyncio.StreamReader.readexactly returns exactly n bytes or raises; uuid.UUID.bytes is 16 bytes; struct semantics; pickle resolves a string __reduce__ as a module global.",
     "explanation": (
